@@ -8,3 +8,10 @@ package common
 //@ func StatusFromString
 //@   props C12
 //@   purefn
+
+// A status is accepted exactly when it is one of the two documented ones (C10, C16).
+//@ func Status.Validate
+//@   props C10 C16 C07
+//@   nopanic
+//@   modifies nothing
+//@   ensures [open-or-closed] (result == nil) == (s == OpenStatus || s == ClosedStatus)
